@@ -58,7 +58,7 @@ fn c08_surf_probe_ge_inclusive() {
 }
 
 //@ id: A-5gt
-//@ tier: quick
+//@ tier: thorough
 //@ cap: 900
 //@ desc: SuRF probe, x > t (exclusive lower bound), as A-5ge
 //@ functions: ZoneSurfFilter::zones_overlapping_ge, SurfQuery::may_overlap_ge_with_stats, find_first_key_geq_with_stats, find_last_key
@@ -90,7 +90,7 @@ fn c08_surf_probe_le_inclusive() {
 }
 
 //@ id: A-5lt
-//@ tier: quick
+//@ tier: thorough
 //@ cap: 900
 //@ desc: SuRF probe, x < t (exclusive upper bound), as A-5le
 //@ functions: ZoneSurfFilter::zones_overlapping_le, SurfQuery::may_overlap_le_with_stats, find_last_key_leq_with_stats, find_first_key
